@@ -66,10 +66,11 @@ def build_trees(thorough):
     sub1_opts = [[], ["sub-01_events.json"], ["sub-01_task-A_events.json"], ["sub-01_task-B_events.json"],
                  ["sub-01_task-A_events.json", "sub-01_task-B_events.json"]]
     sub2_opts = [[], ["sub-02_events.json"]]
-    for ses in (False, True):
+    for ses in (False, True, "datatype"):
         for run in ((False, True) if thorough else (False,)):
-            def ev(sub, task):
-                d = f"sub-{sub}" + ("/ses-1" if ses else "")
+            def ev(sub, task, ses=ses, run=run):
+                # "datatype": the events file lies one directory below the session directory (sub-01/ses-1/eeg/...)
+                d = f"sub-{sub}" + ("/ses-1" if ses else "") + ("/eeg" if ses == "datatype" else "")
                 n = f"sub-{sub}" + ("_ses-1" if ses else "") + f"_task-{task}" + ("_run-1" if run else "") + "_events.tsv"
                 return d + "/" + n
             # the last one lies in the dataset root itself (no directory component below the root)
